@@ -156,6 +156,12 @@ func c18SessionPart(t *testing.T, rec *vrec, caseIdx *int64) {
 		rng := rec.seed(uint64(idx), 1801)
 		sc := genSessScenario(rng, idx, "session-clean-path")
 		sc.Link.Cipher = cipherNames[q%len(cipherNames)]
+		// a rate limit below the offered load is a queueing delay: not a clean path
+		for _, c := range []*sessCfg{&sc.CfgC, &sc.CfgS} {
+			if c.RateLimit > 0 {
+				c.RateLimit = -1
+			}
+		}
 		for _, c := range []*sessCfg{&sc.CfgC, &sc.CfgS} {
 			if c.Mtu != 0 && c.Mtu < sc.Link.overhead()+IKCP_OVERHEAD+30 {
 				c.Mtu = 0
